@@ -2,8 +2,11 @@
    A render is a sequence of actions (the calls a generated component makes on its buffer,
    its context value, the development-mode text file and the once-handle counter).  Run alone it has
    a private fresh buffer, a private context, reads the text file directly, and writes to its own
-   writer, which accepts [cap] bytes and then fails.  Nothing here mentions pools, a cache or other
-   threads: that is the point of the specification. *)
+   writer, which accepts [cap] bytes and then fails.  The context value also holds the set of CSS classes and
+   scripts already emitted in this request (a middleware may have put the classes of the global stylesheet
+   there before the render starts); the writer may be the goroutine's own bufio.Writer, which the goroutine
+   also writes to itself (a header, a trailer) and flushes when it sees fit.  Nothing here mentions pools,
+   a cache, shared maps or other threads: that is the point of the specification. *)
 From Coq.Strings Require Import Byte String.
 From Coq Require Import List Arith NArith Bool.
 Import ListNotations.
@@ -23,7 +26,12 @@ Inductive act :=
 | Release                     (* deferred templruntime.ReleaseBuffer: Flush, then pool Put - two steps *)
 | BGet                        (* templ.GetBuffer(): bytes.Buffer pool (handler.go, ToGoHTML); the render then writes into it *)
 | BDrain                      (* w.Write(buf.Bytes()) *)
-| BRelease.                   (* deferred templ.ReleaseBuffer: Reset, then pool Put - two steps *)
+| BRelease                    (* deferred templ.ReleaseBuffer: Reset, then pool Put - two steps *)
+| Mid (regs : list N)         (* the request passes templ.CSSMiddleware: the registered class ids are added to the request's context value *)
+| EmitOnce (k : N) (s : bytes)(* templ.RenderCSSItems / RenderScriptItems for one item with key k: the element s, unless k was emitted (or registered) in this context *)
+| OwnWrap                     (* the goroutine puts its own bufio.Writer in front of its writer; renders are handed that from now on *)
+| OwnWrite (s : bytes)        (* the goroutine itself writes s to its writer, outside any render (a header, a trailer) *)
+| OwnFlush.                   (* the goroutine flushes its own bufio.Writer *)
 
 (* the development-mode text files: modification time and lines *)
 Record file := { mtime : N; flines : list bytes }.
@@ -48,82 +56,112 @@ Record lstate := {
   l_out : bytes;           (* what the goroutine's writer has received *)
   l_cap : nat;             (* the writer fails after this many bytes *)
   l_ctx : list nat;        (* once handles rendered in the current context *)
+  l_ss : list N;           (* classes and scripts emitted or registered in the current context *)
+  l_pend : option bytes;   (* the goroutine's own bufio.Writer in front of its writer, if any: the bytes it holds *)
   l_nids : nat;            (* handles created *)
   l_failed : bool;         (* the current render has returned an error *)
   l_prog : list act }.
 
-Definition lmk b bb bbc out cap cx n f p : lstate :=
-  {| l_buf := b; l_bb := bb; l_bbc := bbc; l_out := out; l_cap := cap; l_ctx := cx; l_nids := n; l_failed := f; l_prog := p |}.
+Definition lmk b bb bbc out cap cx ss pd n f p : lstate :=
+  {| l_buf := b; l_bb := bb; l_bbc := bbc; l_out := out; l_cap := cap; l_ctx := cx; l_ss := ss; l_pend := pd; l_nids := n; l_failed := f; l_prog := p |}.
 
-(* bufio Flush of content c (sticky error e) towards the bytes.Buffer or the writer: content', error', out', bbc' *)
-Definition lflush (cap : nat) (out bbc c : bytes) (e toB : bool) : bytes * bool * bytes * bytes :=
-  if e then (c, true, out, bbc)
-  else if toB then ([], false, out, bbc ++ c)
-  else let '(out', rest) := sink_write cap out c in (rest, negb (nilb rest), out', bbc).
+(* a write of c to the goroutine's writer: into its own bufio.Writer when it has one (which takes everything), else to the
+   writer itself: out', pend', what was refused *)
+Definition dest_write (cap : nat) (out : bytes) (pd : option bytes) (c : bytes) : bytes * option bytes * bytes :=
+  match pd with
+  | Some q => (out, Some (q ++ c), [])
+  | None => let '(out', rest) := sink_write cap out c in (out', None, rest)
+  end.
+
+(* bufio Flush of content c (sticky error e) towards the bytes.Buffer or the writer: content', error', out', bbc', pend' *)
+Definition lflush (cap : nat) (out bbc : bytes) (pd : option bytes) (c : bytes) (e toB : bool) : bytes * bool * bytes * bytes * option bytes :=
+  if e then (c, true, out, bbc, pd)
+  else if toB then ([], false, out, bbc ++ c, pd)
+  else let '(out', pd', rest) := dest_write cap out pd c in (rest, negb (nilb rest), out', bbc, pd').
 
 Definition lstep (fs : fsys) (v : lstate) : option lstate :=
-  let '{| l_buf := b; l_bb := bb; l_bbc := bbc; l_out := out; l_cap := cap; l_ctx := cx; l_nids := n; l_failed := fl; l_prog := p |} := v in
+  let '{| l_buf := b; l_bb := bb; l_bbc := bbc; l_out := out; l_cap := cap; l_ctx := cx; l_ss := ss; l_pend := pd; l_nids := n; l_failed := fl; l_prog := p |} := v in
   match b with
-  | Some LGot => Some (lmk (Some (LBuf [] false (is_some bb) false)) bb bbc out cap cx n fl p)   (* Reset(w): second half of Get *)
-  | Some (LBuf c e tb true) => Some (lmk None bb bbc out cap cx n fl p)                          (* Put: second half of Release *)
+  | Some LGot => Some (lmk (Some (LBuf [] false (is_some bb) false)) bb bbc out cap cx ss pd n fl p)   (* Reset(w): second half of Get *)
+  | Some (LBuf c e tb true) => Some (lmk None bb bbc out cap cx ss pd n fl p)                          (* Put: second half of Release *)
   | _ =>
   match bb with
-  | Some true => Some (lmk b None [] out cap cx n fl p)                                          (* Put: second half of BRelease *)
+  | Some true => Some (lmk b None [] out cap cx ss pd n fl p)                                          (* Put: second half of BRelease *)
   | _ =>
   match p with
   | [] => None
   | a :: r =>
     match a with
-    | Begin => Some (lmk b bb bbc out cap [] n false r)
-    | Get => match b with None => Some (lmk (Some LGot) bb bbc out cap cx n fl r) | Some _ => None end
+    | Begin => Some (lmk b bb bbc out cap [] [] pd n false r)
+    | Get => match b with None => Some (lmk (Some LGot) bb bbc out cap cx ss pd n fl r) | Some _ => None end
     | Write s =>
-        if fl then Some (lmk b bb bbc out cap cx n fl r) else
+        if fl then Some (lmk b bb bbc out cap cx ss pd n fl r) else
         match b with
         | Some (LBuf c e tb _) =>
-            if e then Some (lmk b bb bbc out cap cx n true r)
-            else Some (lmk (Some (LBuf (c ++ s) false tb false)) bb bbc out cap cx n fl r)
+            if e then Some (lmk b bb bbc out cap cx ss pd n true r)
+            else Some (lmk (Some (LBuf (c ++ s) false tb false)) bb bbc out cap cx ss pd n fl r)
         | _ => None end
     | Lookup f i =>
-        if fl then Some (lmk b bb bbc out cap cx n fl r) else
+        if fl then Some (lmk b bb bbc out cap cx ss pd n fl r) else
         match b with
         | Some (LBuf c e tb _) =>
             match (match assoc f fs with Some fi => nth_error (flines fi) i | None => None end) with
-            | Some s => if e then Some (lmk b bb bbc out cap cx n true r)
-                        else Some (lmk (Some (LBuf (c ++ s) false tb false)) bb bbc out cap cx n fl r)
-            | None => Some (lmk b bb bbc out cap cx n true r)
+            | Some s => if e then Some (lmk b bb bbc out cap cx ss pd n true r)
+                        else Some (lmk (Some (LBuf (c ++ s) false tb false)) bb bbc out cap cx ss pd n fl r)
+            | None => Some (lmk b bb bbc out cap cx ss pd n true r)
             end
         | _ => None end
     | Once h k =>
-        if fl then Some (lmk b bb bbc out cap cx n fl r) else
-        if existsb (Nat.eqb h) cx then Some (lmk b bb bbc out cap cx n fl (skipn k r))
-        else Some (lmk b bb bbc out cap (h :: cx) n fl r)
+        if fl then Some (lmk b bb bbc out cap cx ss pd n fl r) else
+        if existsb (Nat.eqb h) cx then Some (lmk b bb bbc out cap cx ss pd n fl (skipn k r))
+        else Some (lmk b bb bbc out cap (h :: cx) ss pd n fl r)
     | NewHandle =>
-        if fl then Some (lmk b bb bbc out cap cx n fl r) else Some (lmk b bb bbc out cap cx (S n) fl r)
-    | Err => Some (lmk b bb bbc out cap cx n true r)
+        if fl then Some (lmk b bb bbc out cap cx ss pd n fl r) else Some (lmk b bb bbc out cap cx ss pd (S n) fl r)
+    | Err => Some (lmk b bb bbc out cap cx ss pd n true r)
     | Flush =>
-        if fl then Some (lmk b bb bbc out cap cx n fl r) else
+        if fl then Some (lmk b bb bbc out cap cx ss pd n fl r) else
         match b with
         | Some (LBuf c e tb _) =>
-            let '(c', e', out', bbc') := lflush cap out bbc c e tb in
-            Some (lmk (Some (LBuf c' e' tb false)) bb bbc' out' cap cx n e' r)
+            let '(c', e', out', bbc', pd') := lflush cap out bbc pd c e tb in
+            Some (lmk (Some (LBuf c' e' tb false)) bb bbc' out' cap cx ss pd' n e' r)
         | _ => None end
     | Release =>
         match b with
         | Some (LBuf c e tb _) =>
-            let '(c', e', out', bbc') := lflush cap out bbc c e tb in
-            Some (lmk (Some (LBuf c' e' tb true)) bb bbc' out' cap cx n (fl || e') r)
+            let '(c', e', out', bbc', pd') := lflush cap out bbc pd c e tb in
+            Some (lmk (Some (LBuf c' e' tb true)) bb bbc' out' cap cx ss pd' n (fl || e') r)
         | _ => None end
-    | BGet => match bb with None => Some (lmk b (Some false) [] out cap cx n fl r) | Some _ => None end
+    | BGet => match bb with None => Some (lmk b (Some false) [] out cap cx ss pd n fl r) | Some _ => None end
     | BDrain =>
-        if fl then Some (lmk b bb bbc out cap cx n fl r) else
+        if fl then Some (lmk b bb bbc out cap cx ss pd n fl r) else
         match bb with
-        | Some _ => let '(out', rest) := sink_write cap out bbc in
-                    Some (lmk b bb bbc out' cap cx n (negb (nilb rest)) r)
+        | Some _ => let '(out', pd', rest) := dest_write cap out pd bbc in
+                    Some (lmk b bb bbc out' cap cx ss pd' n (negb (nilb rest)) r)
         | None => None end
     | BRelease =>
         match bb with
-        | Some _ => Some (lmk b (Some true) [] out cap cx n fl r)
+        | Some _ => Some (lmk b (Some true) [] out cap cx ss pd n fl r)
         | None => None end
+    | Mid regs => Some (lmk b bb bbc out cap cx (regs ++ ss) pd n fl r)
+    | EmitOnce k s =>
+        if fl then Some (lmk b bb bbc out cap cx ss pd n fl r) else
+        if existsb (N.eqb k) ss then Some (lmk b bb bbc out cap cx ss pd n fl r) else
+        match b with
+        | Some (LBuf c e tb _) =>
+            if e then Some (lmk b bb bbc out cap cx (k :: ss) pd n true r)
+            else Some (lmk (Some (LBuf (c ++ s) false tb false)) bb bbc out cap cx (k :: ss) pd n fl r)
+        | _ => None end
+    | OwnWrap =>
+        match b, bb, pd with
+        | None, None, None => Some (lmk b bb bbc out cap cx ss (Some []) n fl r)
+        | _, _, _ => None end
+    | OwnWrite s =>
+        let '(out', pd', _) := dest_write cap out pd s in Some (lmk b bb bbc out' cap cx ss pd' n fl r)
+    | OwnFlush =>
+        match pd with
+        | Some q => let '(out', rest) := sink_write cap out q in Some (lmk b bb bbc out' cap cx ss (Some rest) n fl r)
+        | None => Some (lmk b bb bbc out cap cx ss pd n fl r)
+        end
     end
   end
   end
@@ -133,7 +171,7 @@ Definition lstep (fs : fsys) (v : lstate) : option lstate :=
 Fixpoint lrun (fs : fsys) (k : nat) (v : lstate) : option lstate :=
   match k with O => Some v | S k' => match lstep fs v with Some v' => lrun fs k' v' | None => None end end.
 
-Definition linit (cap : nat) (p : list act) : lstate := lmk None None [] [] cap [] 0 false p.
+Definition linit (cap : nat) (p : list act) : lstate := lmk None None [] [] cap [] [] None 0 false p.
 
 (* run to completion (fuel-bounded): the output of the render alone *)
 Fixpoint lfinal (fs : fsys) (fuel : nat) (v : lstate) : lstate :=
@@ -144,3 +182,8 @@ Definition alone_out (fs : fsys) (cap : nat) (p : list act) : bytes :=
 (* what a render of a component tree looks like: the shape the generated code has *)
 Definition render (body : list act) : list act := Begin :: Get :: body ++ [Release].
 Definition handler_render (body : list act) : list act := Begin :: BGet :: Get :: body ++ [Release; BDrain; BRelease].
+(* the same behind templ.NewCSSMiddleware(next, classes...) *)
+Definition mw_render (regs : list N) (body : list act) : list act := Begin :: Mid regs :: Get :: body ++ [Release].
+Definition mw_handler_render (regs : list N) (body : list act) : list act := Begin :: Mid regs :: BGet :: Get :: body ++ [Release; BDrain; BRelease].
+(* a render into the goroutine's own bufio.Writer, between a header and a trailer the goroutine writes itself *)
+Definition framed_render (head tail : bytes) (body : list act) : list act := OwnWrite head :: render body ++ [OwnWrite tail; OwnFlush].
